@@ -73,6 +73,18 @@
 	result->ruleName         = (rule); \
 }\
 
+
+/**
+ * Converts a time value of the signature to \c time_t. A value beyond the range of \c time_t is later than
+ * any date a hash algorithm can be deprecated from, so it is mapped to the largest representable time
+ * (a plain cast would wrap it into the past).
+ */
+static time_t integerToTime(const KSI_Integer *t) {
+	KSI_uint64_t v = KSI_Integer_getUInt64(t);
+	const KSI_uint64_t max = (((KSI_uint64_t)1) << (sizeof(time_t) * 8 - 1)) - 1;
+	return (time_t)(v > max ? max : v);
+}
+
 static int rfc3161_preSufHasher(KSI_CTX *ctx, const KSI_OctetString *prefix, const KSI_DataHash *hsh, const KSI_OctetString *suffix, int hsh_id, KSI_DataHash **out);
 static int rfc3161_verifyAggrTime(KSI_CTX *ctx, const KSI_Signature *sig);
 static int rfc3161_verifyChainIndex(KSI_CTX *ctx, const KSI_Signature *sig);
@@ -235,7 +247,7 @@ int KSI_VerificationRule_AggregationChainInputHashAlgorithmVerification(KSI_Veri
 		goto cleanup;
 	}
 
-	res = KSI_checkHashAlgorithmAt(algId, (time_t)KSI_Integer_getUInt64(signTime));
+	res = KSI_checkHashAlgorithmAt(algId, integerToTime(signTime));
 	switch (res) {
 		case KSI_OK:
 		case KSI_UNKNOWN_HASH_ALGORITHM_ID:
@@ -364,7 +376,7 @@ int KSI_VerificationRule_Rfc3161RecordOutputHashAlgorithmVerification(KSI_Verifi
 		goto cleanup;
 	}
 
-	res = KSI_checkHashAlgorithmAt(algorithm, (time_t)KSI_Integer_getUInt64(aggrTime));
+	res = KSI_checkHashAlgorithmAt(algorithm, integerToTime(aggrTime));
 	switch (res) {
 		case KSI_OK:
 		case KSI_UNKNOWN_HASH_ALGORITHM_ID:
@@ -431,7 +443,7 @@ int KSI_VerificationRule_Rfc3161RecordHashAlgorithmVerification(KSI_Verification
 		goto cleanup;
 	}
 
-	res = KSI_checkHashAlgorithmAt((KSI_HashAlgorithm)KSI_Integer_getUInt64(algorithm), (time_t)KSI_Integer_getUInt64(aggrTime));
+	res = KSI_checkHashAlgorithmAt((KSI_HashAlgorithm)KSI_Integer_getUInt64(algorithm), integerToTime(aggrTime));
 	switch (res) {
 		case KSI_OK:
 		case KSI_UNKNOWN_HASH_ALGORITHM_ID:
@@ -459,7 +471,7 @@ int KSI_VerificationRule_Rfc3161RecordHashAlgorithmVerification(KSI_Verification
 		goto cleanup;
 	}
 
-	res = KSI_checkHashAlgorithmAt((KSI_HashAlgorithm)KSI_Integer_getUInt64(algorithm), (time_t)KSI_Integer_getUInt64(aggrTime));
+	res = KSI_checkHashAlgorithmAt((KSI_HashAlgorithm)KSI_Integer_getUInt64(algorithm), integerToTime(aggrTime));
 	switch (res) {
 		case KSI_OK:
 		case KSI_UNKNOWN_HASH_ALGORITHM_ID:
@@ -1107,7 +1119,7 @@ int KSI_VerificationRule_AggregationChainHashAlgorithmVerification(KSI_Verificat
 			goto cleanup;
 		}
 
-		res = KSI_checkHashAlgorithmAt((KSI_HashAlgorithm)KSI_Integer_getUInt64(algorithm), (time_t)KSI_Integer_getUInt64(aggrTime));
+		res = KSI_checkHashAlgorithmAt((KSI_HashAlgorithm)KSI_Integer_getUInt64(algorithm), integerToTime(aggrTime));
 		switch (res) {
 			case KSI_OK:
 			case KSI_UNKNOWN_HASH_ALGORITHM_ID:
@@ -1774,7 +1786,7 @@ static int calendarChainAggrAlgorithmState(KSI_CTX *ctx, const KSI_CalendarHashC
 			goto cleanup;
 		}
 
-		if (inspector(algId, (time_t)KSI_Integer_getUInt64(pubTime))) {
+		if (inspector(algId, integerToTime(pubTime))) {
 			*status = true;
 			res = KSI_OK;
 			goto cleanup;
